@@ -100,6 +100,8 @@ def run(ctx):
     repo, cg = ctx.repo, ctx.cg
     ctx.rule('R02.1', 'equality that suppresses diff output must discriminate JSON types: value comparisons of the two documents are str-guarded '
              '(or schema-exact), no table installs a bare operator.__eq__ as the deciding predicate for atomic items, equality helpers test the number type', floor=4)
+    ctx.rule('R02.5', 'no dict/set lookup on the diff path is keyed by document items (hashing conflates True/1/1.0)', floor=1)
+    ctx.rule('R02.6', 'the differ and the patcher split text into lines with the same primitive (str.splitlines(True)) at every line-key site', floor=4)
     ctx.rule('R02.2', 'only documented ops, handled ops: builder op sets = schema oneOf = documented ops, and every consumer has an arm per op of its container kind', floor=6)
     ctx.rule('R02.3', 'all generic sequence/mapping diffs are assembled by the sorting / duplicate-refusing builders', floor=5)
     ctx.rule('R02.4', 'sibling gap emitters keep one cursor discipline: same key for removerange and addrange, length = next - key, inserted slice from the second sequence', floor=5)
@@ -189,6 +191,72 @@ def run(ctx):
     # diff_sequence default
     ds = repo.func('nbdime.diffing.sequences:diff_sequence')
     ctx.note('diff_sequence/bruteforce default compare=operator.__eq__ is only a default argument; callers on the diff path pass the table predicate')
+
+    # ---------------------------------------------------------------- R02.5 no value-keyed hashing of document items
+    n_h = 0
+    for fid in sorted(reach):
+        if not fid.startswith('nbdime.diffing.'):
+            continue
+        fn = repo.functions[fid]
+        if repo.func_of(fn) is not None:
+            continue            # nested defs are analysed with their outermost function
+        scope_fns = [fn] + [n for n in ast.walk(fn) if isinstance(n, FuncTypes) and n is not fn]
+        params = set()
+        for f2 in scope_fns:
+            params |= set(param_names(f2))
+        elems = set()
+        for n in ast.walk(fn):
+            it = None
+            if isinstance(n, (ast.For, ast.comprehension)):
+                it, tg = n.iter, n.target
+                if isinstance(it, ast.Name) and it.id in params or \
+                        (isinstance(it, ast.Call) and dotted(it.func) in ('zip', 'enumerate') and any(isinstance(a, ast.Name) and a.id in params for a in it.args)):
+                    elems |= {x.id for x in ast.walk(tg) if isinstance(x, ast.Name)}
+        for f2 in scope_fns[1:]:
+            # a nested helper called with elements receives elements
+            for c in calls_in(fn):
+                if isinstance(c.func, ast.Name) and c.func.id == f2.name:
+                    for prm, a in zip(param_names(f2), c.args):
+                        if isinstance(a, ast.Name) and a.id in elems:
+                            elems.add(prm)
+        if not elems:
+            continue
+        local_dicts = set()
+        for n in ast.walk(fn):
+            if isinstance(n, ast.Assign) and isinstance(n.targets[0], ast.Name) and (
+                    isinstance(n.value, (ast.Dict, ast.Set, ast.DictComp, ast.SetComp)) or
+                    (isinstance(n.value, ast.Call) and (dotted(n.value.func) or '').split('.')[-1] in ('dict', 'set', 'defaultdict', 'OrderedDict', 'Counter', 'frozenset'))):
+                local_dicts.add(n.targets[0].id)
+        for n in ast.walk(fn):
+            hit = None
+            if isinstance(n, ast.Subscript) and isinstance(n.value, ast.Name) and n.value.id in local_dicts and \
+                    any(isinstance(x, ast.Name) and x.id in elems for x in ast.walk(n.slice)):
+                hit = n
+            if isinstance(n, ast.Call) and isinstance(n.func, ast.Attribute) and n.func.attr in ('get', 'setdefault', 'add', 'pop', '__contains__') and \
+                    isinstance(n.func.value, ast.Name) and n.func.value.id in local_dicts and n.args and \
+                    any(isinstance(x, ast.Name) and x.id in elems for x in ast.walk(n.args[0])):
+                hit = n
+            if isinstance(n, ast.Compare) and isinstance(n.ops[0], (ast.In, ast.NotIn)) and isinstance(n.comparators[0], ast.Name) and \
+                    n.comparators[0].id in local_dicts and any(isinstance(x, ast.Name) and x.id in elems for x in ast.walk(n.left)):
+                hit = n
+            if hit is not None:
+                n_h += 1
+                ctx.inst('R02.5', fid, repo.norm(hit), False,
+                         'items of the documents are used as dict/set keys: hash(1) == hash(True) == hash(1.0), so entries of different JSON type share a slot '
+                         'and a cached/recorded verdict for one is reused for the other', hit)
+    ctx.inst('R02.5', 'nbdime.diffing.*', 'dict/set lookups keyed by document items on the diff path: %d' % n_h, True,
+             'no value-keyed hashing of document items (the only equality that decides is the table predicate)', None, nontrivial=False)
+
+    # ---------------------------------------------------------------- R02.6 one line model inside Python
+    from ..linemodel import python_line_sites
+    sites = python_line_sites(ctx)
+    sigs = {tuple(sig) for fid, sig, node in sites}
+    for fid, sig, node in sites:
+        ok = len(sigs) == 1 and sig == ['splitlines(True)']
+        ctx.inst('R02.6', fid, 'line splitter: %s' % sig, ok,
+                 'same splitter as every other line-key site (differ and patcher count lines alike)' if ok else
+                 'this site splits lines with %s while the others use %s: line keys computed by the differ address other lines in the patcher' % (
+                     sig, sorted({s for f2, sg, n2 in sites if f2 != fid for s in sg})), node)
 
     # ---------------------------------------------------------------- R02.2
     consts = mf.diffop_consts(repo)
